@@ -354,12 +354,12 @@ def lastCleanupStep (a : A) : Bool := a.kind == .call && a.name == "self.unwatch
 /-- the disconnection is announced (the client's handler is awaited) before the spa cancels its own tasks and before it
 releases the endpoint; and from the cancellation to the last clean-up step nothing suspends -/
 theorem disconnect_order :
-    precedes (isAwaitOf "self._event_handler") (isCallOf "self._taskman.cancel_key_tasks") spaDisconnect = true ∧
-    precedes (isAwaitOf "self._event_handler") (isCallOf "self._transport.close") spaDisconnect = true ∧
+    precedes (isAwaitOf "self._event_handler(GeckoSpaEvent.RUNNING_SPA_DISCONNECTED)") (isCallOf "self._taskman.cancel_key_tasks") spaDisconnect = true ∧
+    precedes (isAwaitOf "self._event_handler(GeckoSpaEvent.RUNNING_SPA_DISCONNECTED)") (isCallOf "self._transport.close") spaDisconnect = true ∧
     sectionsAtomic cancelsOwnTasks lastCleanupStep spaDisconnect = true := by decide +kernel
 
 theorem disconnect_order_traces (t : List Ev) (o : Out) (h : Run spaDisconnect t o) :
-    (runMon (orderMon (isAwaitOf "self._event_handler") (isCallOf "self._taskman.cancel_key_tasks")) 0 t).isSome = true ∧
+    (runMon (orderMon (isAwaitOf "self._event_handler(GeckoSpaEvent.RUNNING_SPA_DISCONNECTED)") (isCallOf "self._taskman.cancel_key_tasks")) 0 t).isSome = true ∧
     secOK cancelsOwnTasks lastCleanupStep false t = true :=
   ⟨scan_accepts _ 4 spaDisconnect 0 disconnect_order.1 t o h, sectionsAtomic_sound _ _ spaDisconnect disconnect_order.2.2 t o h⟩
 
@@ -369,8 +369,8 @@ example : "self._taskman.cancel_key_tasks" ∈ actions .call spaDisconnect ∧ "
     suspensions spaDisconnect = 1 := by decide +kernel
 
 example :
-    precedes (isAwaitOf "self._event_handler") (isCallOf "self._taskman.cancel_key_tasks")
-      (.seq (.ev (.act ⟨.call, "self._taskman.cancel_key_tasks"⟩)) (.ev (.aw "self._event_handler"))) = false ∧
+    precedes (isAwaitOf "self._event_handler(GeckoSpaEvent.RUNNING_SPA_DISCONNECTED)") (isCallOf "self._taskman.cancel_key_tasks")
+      (.seq (.ev (.act ⟨.call, "self._taskman.cancel_key_tasks"⟩)) (.ev (.aw "self._event_handler(GeckoSpaEvent.RUNNING_SPA_DISCONNECTED)"))) = false ∧
     sectionsAtomic cancelsOwnTasks lastCleanupStep
       (.seq (.ev (.act ⟨.call, "self._taskman.cancel_key_tasks"⟩)) (.seq (.ev (.aw "asyncio.sleep")) (.ev (.act ⟨.call, "self.unwatch_all"⟩)))) = false := by
   decide +kernel
